@@ -33,7 +33,7 @@ def my_tag(res):
 def timing_scenario(s2, d1, d2, da, db):
     sc = base_scenario(2)
     sc['machines'] = PIN.get('machines', [10, 10, 20])
-    sc['alg'] = ALGS[PIN.get('alg', 'queue')]
+    sc['alg'] = ALGS.get(PIN.get('alg', 'queue'), dict(kind='queue'))
     g = PIN.get('ingest', [1, 1])
     sc['max_ingest'] = PIN.get('max_ingest', 2)
     sc['obs'][0].update(start=PIN.get('s1', 0), dur=d1, ingest=g[0], arrays=PIN.get('arrays1', 1))
@@ -73,7 +73,7 @@ def prof_two(v):
     s2, d1, d2, da, db, g2, mi, vol = v
     sc = base_scenario(2)
     sc['machines'] = PIN.get('machines', [10, 10, 20])
-    sc['alg'] = ALGS[PIN.get('alg', 'queue')]
+    sc['alg'] = ALGS.get(PIN.get('alg', 'queue'), dict(kind='queue'))
     sc['max_ingest'] = mi
     sc['obs'][0].update(start=PIN.get('s1', 0), dur=d1, ingest=PIN.get('g1', 1), arrays=PIN.get('arrays1', 1))
     sc['obs'][1].update(start=s2, dur=d2, ingest=g2, arrays=PIN.get('arrays2', 1))
@@ -88,7 +88,7 @@ def prof_three(v):
     s2, s3, d1, d2, d3, da, db, dc = v
     sc = base_scenario(3)
     sc['machines'] = PIN.get('machines', [10, 10, 20])
-    sc['alg'] = ALGS[PIN.get('alg', 'queue')]
+    sc['alg'] = ALGS.get(PIN.get('alg', 'queue'), dict(kind='queue'))
     sc['max_ingest'] = PIN.get('max_ingest', 2)
     g = PIN.get('ingest', [1, 1, 1])
     for k, (st, du) in enumerate(((PIN.get('s1', 0), d1), (s2, d2), (s3, d3))):
@@ -212,7 +212,9 @@ def sizes(r1: int, r2: int, hot: int, cold: int, rh: int, rc: int) -> bool:
 
 def warmup():
     PIN.setdefault('props', ['C'])
-    simh.run(timing_scenario(1, 2, 1, 1, 2))
+    sc = base_scenario(2)
+    sc['obs'][1].update(start=1, dur=2)
+    simh.run(sc)
 
 
 def G(profile, ranges, props, T=200, **pin):
